@@ -501,6 +501,9 @@ type SpecFunc struct {
 }
 
 type Axiom struct {
+	Using  []*Expr // lemma instances assumed while proving this lemma (each is proved on its own)
+	Params []ParamDecl
+	Pkg   string
 	Name  string
 	E     *Expr
 	Lemma bool   // must be proved
@@ -967,6 +970,15 @@ func ParseSpecFile(path, pkg string, isGo, trusted bool) (*SpecFile, error) {
 			cur = nil
 		case "axiom", "lemma":
 			tags, r2 := parseTagsPrefix(rest)
+			var lparams []ParamDecl
+			if k := strings.Index(r2, "("); k >= 0 && k < strings.Index(r2+":", ":") {
+				j := matchParen(r2, k)
+				if j < 0 {
+					return nil, fail(i, "unbalanced lemma parameters")
+				}
+				lparams = parseParamList(r2[k+1 : j])
+				r2 = r2[:k] + r2[j+1:]
+			}
 			parts := strings.SplitN(r2, ":", 2)
 			if len(parts) != 2 {
 				return nil, fail(i, "%s needs 'name: expr'", kw)
@@ -977,11 +989,22 @@ func ParseSpecFile(path, pkg string, isGo, trusted bool) (*SpecFile, error) {
 				by = strings.TrimSpace(body[m+4:])
 				body = body[:m]
 			}
+			var using []*Expr
+			if m := strings.Index(body, " using "); m >= 0 && kw == "lemma" {
+				for _, u := range splitTop(body[m+7:], ',') {
+					ue, err := ParseExpr(u)
+					if err != nil || ue.Kind != ECall {
+						return nil, fail(i, "using needs lemma instances name(args): %q", u)
+					}
+					using = append(using, ue)
+				}
+				body = body[:m]
+			}
 			e, err := ParseExpr(body)
 			if err != nil {
 				return nil, fail(i, "%v", err)
 			}
-			sf.Axioms = append(sf.Axioms, &Axiom{Name: strings.TrimSpace(parts[0]), E: e, Lemma: kw == "lemma", By: by, File: path, Tags: tags})
+			sf.Axioms = append(sf.Axioms, &Axiom{Using: using, Params: lparams, Pkg: pkg, Name: strings.TrimSpace(parts[0]), E: e, Lemma: kw == "lemma", By: by, File: path, Tags: tags})
 			cur = nil
 		case "guarded_by": // guarded_by (e *endPoint) e.handlersMutex: e.handlers, e.handlers[*]
 			if !strings.HasPrefix(rest, "(") {
